@@ -1,0 +1,15 @@
+//go:build verif
+
+package smobserver
+
+import (
+	abcitypes "github.com/tendermint/tendermint/abci/types"
+
+	"github.com/shutter-network/rolling-shutter/rolling-shutter/keyper/shutterevents"
+)
+
+// VerifMakeEvents exposes makeEvents (decode the events of one block result, log and skip the
+// malformed ones) to the verification harness in /verif. Add-only, compiled only with -tags verif.
+func VerifMakeEvents(height int64, events []abcitypes.Event) []shutterevents.IEvent {
+	return makeEvents(height, events)
+}
